@@ -259,6 +259,23 @@ package types
 //@   allocates uint256.Int
 //@   ensures result != nil && fresh(result) && u(result) == power * 10^18                                       [C02,C12]
 
+//@ func AmountPerPower()
+//@   nopanic
+//@   assumes amountPerPower != nil && u(amountPerPower) == 10^18
+//@   allocates uint256.Int
+//@   ensures result != nil && fresh(result) && u(result) == 10^18
+
+//@ func (h IGovHandler) MinValidatorStake()
+//@   pure
+//@   ensures result != nil && u(result) < 2^120 && u(result) / 10^18 == govMinValPower[h]
+
+//@ func (h IGovHandler) MinDelegatorStake()
+//@   pure
+//@   ensures result != nil && u(result) < 2^120
+
+//@ func (h IGovHandler) MinSelfStakeRatio()
+//@   pure
+
 //@ func (h IGovHandler) LazyRewardBlocks()
 //@   pure
 //@   ensures result == govLazyReward[h] && 0 <= result && result < 2^40
